@@ -984,8 +984,11 @@ func (db *DB) getPendingMergeEntries(entry *Entry, pendingMergeEntries []*Entry)
 		keyAndScore := strings.Split(string(entry.Key), SeparatorForZSetKey)
 		if len(keyAndScore) == 2 {
 			key := keyAndScore[0]
+			score, _ := strconv2.StrToFloat64(keyAndScore[1])
 			n := db.SortedSetIdx[string(entry.Meta.bucket)].GetByKey(key)
-			if n != nil {
+			// keep only the record that holds the member's current score and value:
+			// an older ZAdd of the same member must not be replayed after a newer one
+			if n != nil && n.Score() == zset.SCORE(score) && string(n.Value) == string(entry.Value) {
 				pendingMergeEntries = append(pendingMergeEntries, entry)
 			}
 		}
